@@ -367,7 +367,7 @@ def _expand_state_inner(task):
                     for v in V:
                         p = v["sig"]["property"]
                         out["poisoned"][p] = out["poisoned"].get(p, 0) + 1
-                        v["witness"] = {"world": spec["worlds"][wi][0], "history": history + [hist_item]}
+                        v["witness"] = {"world": spec["worlds"][wi][0], "history": history + [hist_item], "fault": bool(fault)}
                         out["violations"].append(v)
                 elif is_core and not fault and res.ok and not T.exp.get("overflow"):
                     out["children"].append((history + [hist_item], T.canon1))
